@@ -26,6 +26,8 @@ def handle (op : String) (j : Json) : Except String Json := do
     let p0 ← Hdl21.Drv.Sem.parsePackage (← j.getObjVal? "pkg")
     let p : Package := { p0 with modules := p0.modules.map fun m => { m with ports := m.ports.map fun (n, d) => (n, d.toUpper) } }
     let hs := (← getArr j "hmods").toList
+    -- which layout of the signal list the exporter at hand writes (read off a probe module by the harness)
+    let pf := match j.getObjVal? "ports_first" with | .ok (.bool b) => b | _ => false
     let rec go (earlier : List PModule) : List (PModule × Json) → List Json
       | [] => []
       | (m, hj) :: rest =>
@@ -34,7 +36,7 @@ def handle (op : String) (j : Json) : Except String Json := do
           | .error e => Json.mkObj [("parse_error", e)]
           | .ok h =>
             let ninst := (match hj.getObjValAs? (Array Json) "instances" with | .ok a => a.size | .error _ => 0)
-            let back : Json := match RoundTrip.exportModule h with
+            let back : Json := match (if pf then RoundTrip.exportModulePF h else RoundTrip.exportModule h) with
               | .error _ => "error"
               | .ok q => Json.bool (q.signals == m.signals && q.ports == m.ports &&
                   reprStr (q.instances.map fun i => (i.name, i.conns)) == reprStr (m.instances.map fun i => (i.name, i.conns)))
